@@ -248,7 +248,21 @@ func mustPassIncl(fn *ssa.Function, target ssa.Instruction, via func(ssa.Instruc
 	return !canReach(fn, nil, target, cut{instr: func(in ssa.Instruction) bool { return in != target && via(in) }})
 }
 
+// c04R2: decided from the traces of Proxy.ServeHTTP (E10): the oracle backend rewrites the URL path and adds a header,
+// as the director and the header rules do; the next attempt must start from the pristine request again.  The
+// loop-shape formulation (c04R2Patterns) is kept for reference and no longer registered.
 func c04R2(h H) {
+	r := h.r
+	r.Rule("R2", "every attempt starts from the request as the client sent it (E10 proxy traces): with the oracle backend modifying the outgoing URL path and header during each attempt — what the director and the header_upstream rules do — every later attempt of the same request finds the pristine URL path and none of the added headers (createUpstreamRequest itself: see R5)", 1)
+	t := proxyTraces(h)
+	var pos token.Pos
+	if fn := h.p.Func(pxPkg, "Proxy.ServeHTTP"); fn != nil {
+		pos = fn.Pos()
+	}
+	r.Check(t.fresh == "" && t.other == "", "R2", "proxy.Proxy.ServeHTTP/retry-loop/attempts-start-pristine", pos, "director and header rules do not accumulate across retry attempts", sprintf("%d scripts evaluated", t.n), t.fresh, t.other)
+}
+
+func c04R2Patterns(h H) {
 	r := h.r
 	r.Rule("R2", "copy-on-write of the outgoing request (createUpstreamRequest: see R5): in Proxy.ServeHTTP's retry loop every iteration stores a fresh URL copy and a fresh header map into outreq before any call that receives outreq or its header, and those stores never install a shared value", 6)
 	// createUpstreamRequest: decided by the table of R5 (the client's header map is never modified), which models
@@ -378,7 +392,22 @@ func mutationName(in ssa.Instruction) string {
 
 func c04R3(h H) { bodyReplayRule(h, "R3") }
 
+// bodyReplayRule: decided from the traces of Proxy.ServeHTTP (E10, proxyTraces); the loop-shape formulation
+// (bodyReplayPatterns) is kept for reference and no longer registered.
 func bodyReplayRule(h H, rule string) {
+	r := h.r
+	r.Rule(rule, "body replay along the proxy's traces (E10): every attempt on a buffered body follows a rewind; the body is buffered exactly when the upstream has more than one backend and retries are enabled (scripts with one and two backends, try_duration 0 and 100), under no further condition", 2)
+	t := proxyTraces(h)
+	var pos token.Pos
+	if fn := h.p.Func(pxPkg, "Proxy.ServeHTTP"); fn != nil {
+		pos = fn.Pos()
+	}
+	n := sprintf("%d scripts evaluated", t.n)
+	r.Check(t.body == "" && t.other == "", rule, "proxy.Proxy.ServeHTTP/retry-loop/rewind-before-forward", pos, "each attempt starts with the buffered body rewound to its beginning", n, t.body, t.other)
+	r.Check(t.buffer == "" && t.other == "", rule, "proxy.Proxy.ServeHTTP/buffering-condition", pos, "the request body is buffered for replay exactly when there is more than one host and retries are enabled (no further condition such as a known Content-Length)", n, t.buffer, t.other)
+}
+
+func bodyReplayPatterns(h H, rule string) {
 	r := h.r
 	r.Rule(rule, "body replay: in every retry iteration the forward call is preceded by bufferedBody.rewind() unless the body is not a *bufferedBody; newBufferedBody is called under exactly the conditions {GetHostCount() > 1, GetTryDuration() != 0}", 2)
 	sv := h.fn(rule, pxPkg, "Proxy.ServeHTTP")
@@ -604,7 +633,7 @@ func c04R4(h H) {
 			return
 		}
 		switch {
-		case strings.HasSuffix(calleeName(c), "proxy.ReverseProxy).copyResponse"):
+		case strings.HasSuffix(calleeName(c), "proxy.ReverseProxy).copyResponse"), relaysBody(c):
 			copyResp = append(copyResp, in)
 		case strings.HasSuffix(calleeName(c), "proxy.shallowCopyTrailers"):
 			copyTr = append(copyTr, in)
@@ -655,4 +684,30 @@ func callerArg(p *Program, par *ssa.Parameter) ssa.Value {
 		return nil
 	}
 	return c.Args[idx]
+}
+
+
+// relaysBody: the call runs a function (a helper of the package, or an immediately-invoked closure) that copies a
+// stream — it calls io.Copy / io.CopyBuffer or the package's pooled copy on every path to its return.
+func relaysBody(c *ssa.CallCommon) bool {
+	f := c.StaticCallee()
+	if f == nil || len(f.Blocks) == 0 || fnPkg(f) == nil || !isModPkg(fnPkg(f).Path()) {
+		return false
+	}
+	isCopy := func(in ssa.Instruction) bool {
+		cc := callOf(in)
+		if cc == nil {
+			return false
+		}
+		n := calleeName(cc)
+		return n == "io.Copy" || n == "io.CopyBuffer" || strings.HasSuffix(n, "proxy.pooledIoCopy")
+	}
+	n := 0
+	for _, rt := range realReturns(f) {
+		n++
+		if !mustPass(f, rt, isCopy) {
+			return false
+		}
+	}
+	return n > 0
 }
